@@ -115,7 +115,20 @@ func checkC12(replay string) {
 		pi, vi := job/len(vars), job%len(vars)
 		spec := gen.Spec{Seed: r.Seed + 12000, Index: pi, Hostile: true, Tests: pi%3 == 0, Excluded: false, Impl: pi%4 == 0, PerPair: 8}
 		cfg := gen.DefaultCfg()
+		// a few @ignore comments (by node, so every variant carries the same ones): layout must not change what they cover
+		sprinkle := func(bt *gen.Built) {
+			irng := base.NewRand(r.Seed, fmt.Sprintf("c12-ign-%d", pi))
+			for _, st := range gen.Statements(bt.P) {
+				if len(st.N.Pre) == 0 {
+					continue
+				}
+				if (st.IsStatement() || st.Depth == 0) && irng.Chance(1, 22) {
+					st.N.Lead = append(st.N.Lead, &gen.Ignore{Codes: base.Pick(irng, []string{"PKGO01", "TONL01", "IMM", "CTOR01, CTOR03", "ALL", "pkgo", "TONL"})})
+				}
+			}
+		}
 		bt0 := gen.Build(spec)
+		sprinkle(bt0)
 		pr0 := runProgram(bt0, gen.RenderOpts{}, cfg, false)
 		if pr0.crashed {
 			if vi == 0 {
@@ -130,6 +143,7 @@ func checkC12(replay string) {
 		v := vars[vi]
 		rng := base.NewRand(r.Seed, fmt.Sprintf("c12-%d-%d", pi, vi))
 		bt := gen.Build(spec)
+		sprinkle(bt)
 		ro := v.apply(bt, rng)
 		pr := runProgram(bt, ro, cfg, false)
 		r.Eval(1)
@@ -222,10 +236,10 @@ func observedOnce(bt *gen.Built, pr *progResult, cat string) map[string]bool {
 
 func checkC13(replay string) {
 	r := base.NewRun("C13")
-	r.Rule = "each program model is rendered with the type mentions of the using packages respelled (local alias, alias declared in a third package, alias of an alias (chain), parenthesised type, renamed import); per line id the same codes must be reported as in the direct spelling, and each rendering is judged absolutely by the reference model (which is spelling-blind); distinct = (spelling, program) pairs with respelled mentions that carry a MUST verdict"
+	r.Rule = "each program model is rendered with the type mentions of the using packages respelled (local alias, alias declared in a third package, alias of an alias (chain), alias of the pointer type, parenthesised type and parenthesised pointer type, renamed import); per line id the same codes must be reported as in the direct spelling, and each rendering is judged absolutely by the reference model (which is spelling-blind); distinct = (spelling, program) pairs with respelled mentions that carry a MUST verdict"
 	r.Assume = []string{"respellings denote identical types (Go alias declarations); compile gate on abnormal exit"}
 	nProg := r.Pick(24, 400)
-	spellings := []string{"alias-local", "alias-third-package", "alias-chain", "paren", "import-rename"}
+	spellings := []string{"alias-local", "alias-third-package", "alias-chain", "alias-of-pointer", "paren", "paren-pointer", "import-rename"}
 	var mu sync.Mutex
 	per := map[string]int{}
 	base.Par(nProg*len(spellings), 0, func(job int) {
